@@ -23,7 +23,7 @@ class Raised:
 # The same call written in another legitimate way: optional parameters given explicitly with their documented default
 # values, everything passed positionally, the basis handed over as a tuple instead of a list (or vice versa). The
 # result must not depend on it, so no oracle changes; the style is a function of the case id (replays reproduce it).
-STYLES = ["as-is", "as-is", "explicit-defaults", "positional", "basis-swap-container"]
+STYLES = ["as-is", "as-is", "explicit-defaults", "positional", "basis-swap-container", "twice-scribble"]
 STYLE = {"name": "as-is", "counts": {}}
 
 
@@ -72,7 +72,19 @@ def restyle(fn, a, k):
 def call(fn, *a, **k):
     """Call gbasis; exceptions become values so that the driver judges them (never a harness error)."""
     try:
-        a, k = restyle(fn, a, k)
+        if STYLE["name"] == "twice-scribble" and (getattr(fn, "__module__", "") or "").startswith(("gbasis.integrals", "gbasis.evals")):
+            # the request is made twice; the array returned first is overwritten by the caller before the second call (it
+            # belongs to the caller), and the driver judges what the second call returns
+            try:
+                first = fn(*a, **k)
+                if isinstance(first, np.ndarray) and first.flags.writeable and first.size and first.dtype.kind in "fc":
+                    first *= 0.25
+                    first += 3.0
+                STYLE["counts"]["twice-scribble"] = STYLE["counts"].get("twice-scribble", 0) + 1
+            except Exception:  # noqa: BLE001
+                pass
+        else:
+            a, k = restyle(fn, a, k)
         return fn(*a, **k)
     except Exception as exc:  # noqa: BLE001
         return Raised(exc)
